@@ -41,15 +41,15 @@ int run_c06(const Args& a, Recorder& rec) {
     Clock clk; bool T = a.thorough(); long idx = 0; std::vector<std::pair<VxConfig,int> > cfgs;   // config, deviation bound (-1 = all interleavings)
     auto add = [&](int model, int P, int phase, int comps, int clear, int split, int rdv, int bound, int omp = 1, int ompord = 0) { VxConfig c; c.harness = "c06"; c.p["model"] = model; c.p["P"] = P; c.p["phase"] = phase; c.p["comps"] = comps; c.p["clear"] = clear; c.p["split"] = split; c.p["rdv"] = rdv; c.p["omp"] = omp; c.p["ompord"] = ompord; cfgs.push_back(std::make_pair(c, bound)); };
     // distributed diagonalisation: all interleavings
-    for (int model : { 2, 1 }) for (int P = 1; P <= (T ? 4 : 3); ++P) for (int rdv = 0; rdv < 2; ++rdv) add(model, P, 1, 0, 0, 0, rdv, (P <= 3 || model == 2) ? -1 : 2);
-    add(3, 2, 1, 0, 0, 0, 0, T ? -1 : 1); if (T) add(3, 3, 1, 0, 0, 0, 0, 2);
+    for (int model : { 2, 1 }) for (int P = 1; P <= (T ? 4 : 3); ++P) for (int rdv = 0; rdv < 2; ++rdv) add(model, P, 1, 0, 0, 0, rdv, (P <= 3 || model == 2) ? -1 : 3);
+    add(3, 2, 1, 0, 0, 0, 0, T ? -1 : 1); if (T) { add(3, 3, 1, 0, 0, 0, 0, 2); add(3, 4, 1, 0, 0, 0, 0, 1); add(3, 2, 1, 0, 0, 0, 1, 2); }
     // TwoParticleGF::compute with the communicator: clear on/off
-    for (int model : { 2, 1 }) for (int P = 2; P <= 3; ++P) for (int clear = 0; clear < 2; ++clear) add(model, P, 2, model == 2 ? 1 : 2, clear, 0, 0, T ? 2 : 1);
-    if (T) for (int rdv = 1; rdv < 2; ++rdv) add(2, 2, 2, 1, 0, 0, rdv, 2);
+    for (int model : { 2, 1 }) for (int P = 2; P <= (T ? 4 : 3); ++P) for (int clear = 0; clear < 2; ++clear) add(model, P, 2, model == 2 ? 1 : 2, clear, 0, 0, T ? (P <= 3 ? 3 : 2) : 1);
+    if (T) { for (int rdv = 1; rdv < 2; ++rdv) add(2, 2, 2, 1, 0, 0, rdv, 3); add(3, 2, 2, 2, 0, 0, 0, 1); add(3, 3, 2, 1, 1, 0, 0, 1); }
     // container, split and unsplit; component counts that P divides / does not divide
-    for (int model : { 2, 1 }) for (int P : { 2, 3, 4 }) for (int comps : { 1, 2, 3, 5 }) for (int split = 0; split < 2; ++split) { if (!T && (P == 4 && comps != 3)) continue; if (!T && comps == 5 && P == 3) continue; add(model, P, 3, comps, 0, split, 0, (P == 2 && comps <= 2) ? 1 : 0); }
-    for (int P : { 2, 3 }) add(2, P, 3, 2, 1, 1, 0, 0);
-    if (T) for (int P : { 5, 8, 16 }) add(1, P, 3, 3, 0, 1, 0, 0);
+    for (int model : { 2, 1 }) for (int P : { 2, 3, 4 }) for (int comps : { 1, 2, 3, 5 }) for (int split = 0; split < 2; ++split) { if (!T && (P == 4 && comps != 3)) continue; if (!T && comps == 5 && P == 3) continue; add(model, P, 3, comps, 0, split, 0, T ? ((P == 2 && comps <= 3) ? 2 : 1) : ((P == 2 && comps <= 2) ? 1 : 0)); }
+    for (int P : { 2, 3 }) add(2, P, 3, 2, 1, 1, 0, T ? 1 : 0);
+    if (T) { for (int P : { 5, 8, 16 }) add(1, P, 3, 3, 0, 1, 0, 0); for (int P : { 2, 3 }) for (int split = 0; split < 2; ++split) add(3, P, 3, 3, 0, split, 0, 0); }
     // OpenMP team sizes / chunk orders (single rank and two ranks)
     for (int omp : { 2, 3, 4, 16 }) for (int ord : { 0, 1, 2 }) { if (!T && omp == 16 && ord == 2) continue; add(1, 1, 2, 2, 0, 0, 0, 0, omp, ord); } add(1, 2, 3, 2, 0, 1, 0, 0, 3, 1);
     for (auto& cb : cfgs) {
